@@ -124,7 +124,10 @@ def trial_order(path, ver_enum, wrapper_enum):
     payload = dict(re.findall(r"(\w+)\((\w+)\)", enum_variants(path, wrapper_enum)))
     text = strip_tests(open(path).read())
     # the judge loop must iterate the version enum and take the first success
-    if not re.search(r"for version in %s::iter\(\)\s*\{[^}]*if wrapper\.is_ok\(\)\s*\{\s*return Ok\(version\)" % ver_enum, text, re.S):
+    # (as a loop that returns at the first success, or as `<ver_enum>::iter().find(..)`, which is the same thing)
+    loop_form = re.search(r"for \w+ in %s::iter\(\)\s*\{.{0,400}?if \w+\.is_ok\(\)\s*\{.{0,400}?return Ok\(\w+\)" % ver_enum, text, re.S)
+    find_form = re.search(r"%s::iter\(\)\s*\.find\(" % ver_enum, text)
+    if not (loop_form or find_form):
         print("schema.py: the version detection loop of %s is not 'first success in declaration order'" % wrapper_enum)
         sys.exit(1)
     out = []
